@@ -19,7 +19,7 @@
 EXTENDS Api, TLC, Json, IOUtils
 
 CONSTANTS NP, NS, NB, MaxDepth,
-          UsePreludes, WKey, WEnv, WLoad, WDecode      \* multiplicities of the rarer calls in the call set (bias for the simulator; 1 in exhaustive mode)
+          UsePreludes, UseSystematic, WKey, WEnv, WLoad, WDecode      \* multiplicities of the rarer calls in the call set (bias for the simulator; 1 in exhaustive mode)
 
 VARIABLES mSt, mHist, mDepth
 
@@ -126,10 +126,26 @@ RECURSIVE RunPrelude(_, _, _)
 RunPrelude(st, hist, pre) ==
   IF Len(pre) = 0 THEN <<st, hist>>
   ELSE LET r == Step(st, pre[1]) IN
-       RunPrelude(r.st, Append(hist, [x \in DOMAIN pre[1] \ {"content"} |-> pre[1][x]] @@ [kind |-> r.kind]), Tail(pre))
+       RunPrelude(r.st, Append(hist, [x \in DOMAIN pre[1] \ {"content", "w"} |-> pre[1][x]] @@ [kind |-> r.kind]), Tail(pre))
+
+(* ---- systematic schedules: EVERY call of the call set (every operation x slot assignment x control bit), in two contexts (the   *)
+(* all-uninitialised pool; a pool with valid points, scalars and all four key objects), and for calls that read a buffer with      *)
+(* EVERY byte class in that buffer: one schedule per model transition.  Enumerated exhaustively by TLC (breadth-first, MaxDepth 0). *)
+CtxValid ==
+  << [op |-> "pt.Generator", v |-> 0], [op |-> "pt.Double", v |-> 0, p |-> 0], [op |-> "pt.Generator", v |-> 1], [op |-> "pt.Identity", v |-> 2],
+     [op |-> "env.LoadBuf", b |-> 1, cls |-> "sc_small", content |-> Content("sc_small")], [op |-> "sc.SetBytes", s |-> 0, b |-> 1],
+     [op |-> "env.LoadBuf", b |-> 1, cls |-> "sc_nm1", content |-> Content("sc_nm1")], [op |-> "sc.SetCanonicalBytes", s |-> 1, b |-> 1],
+     [op |-> "key.NewPrivate", b |-> 1], [op |-> "skey.FromECDSA"],
+     [op |-> "env.LoadBuf", b |-> 0, cls |-> "unc", content |-> Content("unc")] >>
+ReadsBuf(ev) == ev.op \in DecodeOps \cup {"pt.NewFromBytes", "pt.FromCoords", "sc.SetBytes", "sc.SetCanonicalBytes", "key.NewPrivate", "key.NewPublic", "skey.New", "spub.New"}
+SysCalls == {ev \in AllCalls : ~IsEnv(ev) /\ (NP < 3 \/ NS < 2 \/ NB < 2 \/ TRUE)}
+SysSchedules ==
+  {ctx \o <<ev>> : ctx \in {<<>>, CtxValid}, ev \in {e \in SysCalls : ~ReadsBuf(e)}}
+  \cup {ctx \o << [op |-> "env.LoadBuf", b |-> ev.b, cls |-> c, content |-> Content(c)], ev >> :
+          ctx \in {<<>>, CtxValid}, ev \in {e \in SysCalls : ReadsBuf(e)}, c \in BufClasses}
 
 Init == /\ mDepth = 0
-        /\ \E pre \in (IF UsePreludes THEN Preludes ELSE {<<>>}) :
+        /\ \E pre \in (IF UseSystematic THEN SysSchedules ELSE IF UsePreludes THEN Preludes ELSE {<<>>}) :
              LET rp == RunPrelude(Init0, <<>>, pre) IN mSt = rp[1] /\ mHist = (IF "VERIF_SKEL_DIR" \in DOMAIN IOEnv THEN rp[2] ELSE <<>>)
 
 Emit == IF "VERIF_SKEL_DIR" \in DOMAIN IOEnv
